@@ -69,14 +69,23 @@ func Parse(options Options) (module *ast.Module, err error) {
 		return nil, fmt.Errorf("Ungültige Parser Optionen: %w", err)
 	}
 
+	scanErrored := false
 	if options.Tokens == nil {
-		options.Tokens, err = scanner.Scan(options.ToScannerOptions(scanner.ModeStrictCapitalization))
+		scanOptions := options.ToScannerOptions(scanner.ModeStrictCapitalization)
+		scanOptions.ErrorHandler = func(e ddperror.Error) {
+			if e.Level == ddperror.LEVEL_ERROR {
+				scanErrored = true
+			}
+			options.ErrorHandler(e)
+		}
+		options.Tokens, err = scanner.Scan(scanOptions)
 		if err != nil {
 			return nil, fmt.Errorf("Fehler beim Scannen: %w", err)
 		}
 	}
 
 	module = newParser(options.FileName, options.Tokens, options.Modules, options.ErrorHandler).parse()
+	module.Ast.Faulty = module.Ast.Faulty || scanErrored
 	if options.FileName != "" {
 		path, err := filepath.Abs(options.FileName)
 		if err != nil {
